@@ -12,7 +12,7 @@
      no_oca h    = no successful offer, cancel or accept in h;   no_ca h = no successful cancel or accept
      signed_by (Some h) auths = h is in the authorisation set;   signed_by None _ = false
      eff c e     = max live_until (ledger of the offer + min_temp_entry_ttl - 1)            *)
-From SC Require Import Lib.Prelude Lib.Int Lib.Host Model.RoleTransfer Proofs.RoleTransfer Run.C07 Proofs.C07Monitor.
+From SC Require Import Lib.Prelude Lib.Int Lib.Host Model.RoleTransfer Proofs.RoleTransfer Run.C07 Proofs.C07Monitor Proofs.C07Special.
 
 (* ---- the faithful model does NOT satisfy the property in full: known finding F2 ---- *)
 (* offer to 1 until 1000; offer to 2 until 110 (written over the first, in place); ledger 500;
@@ -182,6 +182,31 @@ Theorem C07_renounced_is_final : forall k c start h0 cs h1 e h2,
 Proof. exact renounced_is_final. Qed.
 Print Assumptions C07_renounced_is_final.
 
+(* ---- special parties: an address for which NO call carries an authorisation (in the host: the contract
+   itself - it has no __check_auth and cannot re-enter itself; also any account that never signs) ---- *)
+(* a holder that authorises none of the calls keeps the role through EVERY history, no offer is ever stored,
+   and nothing but ledger advances succeeds: a self-owned contract is callable by nobody, not by anybody *)
+Theorem C07_unauthorisable_holder_is_stuck : forall k c start h cs,
+  Forall (fun cl => has_auth (match cl with Offer _ _ au => au | Accept au => au | Renounce au => au
+                                          | Guarded au => au | Advance _ => [] end) h = false) cs ->
+  Forall (fun e => ev_holder e = Some h /\ ev_after e = Some h /\
+                   (is_ok (ev_out e) = true -> exists n, ev_call e = Advance n))
+         (history k c (init start (Some h)) cs) /\
+  holder (rts (run k c (init start (Some h)) cs)) = Some h /\
+  pending_view (run k c (init start (Some h)) cs) = None.
+Proof. exact silent_holder_stuck. Qed.
+Print Assumptions C07_unauthorisable_holder_is_stuck.
+
+(* an address that authorises none of the calls never becomes the holder, from any state and whatever is
+   offered to it: an offer to the contract itself can never be accepted *)
+Theorem C07_unauthorisable_never_becomes_holder : forall k c cs s a,
+  holder (rts s) <> Some a ->
+  Forall (fun cl => has_auth (match cl with Offer _ _ au => au | Accept au => au | Renounce au => au
+                                          | Guarded au => au | Advance _ => [] end) a = false) cs ->
+  Forall (fun e => ev_after e <> Some a) (history k c s cs) /\ holder (rts (run k c s cs)) <> Some a.
+Proof. exact silent_never_holder. Qed.
+Print Assumptions C07_unauthorisable_never_becomes_holder.
+
 (* ---- the monitor (the property as a boolean over observations) and the model ---- *)
 (* verdict of [check]: (first model/implementation disagreement, monitor index, class) where the
    monitor index is the first UNCLASSIFIED failure if there is one (class 0), otherwise the first
@@ -261,3 +286,22 @@ Example C07_premises_met :
    (true, false, false, 120); (false, false, false, 120); (false, false, true, 120)] /\
   match h with e0 :: _ => eff ex_cfg e0 = 110 | [] => False end.
 Proof. vm_compute. split; reflexivity. Qed.
+(* special parties (4 = the contract itself, never a signer; 5 = another contract, a signer when it is the invoker):
+   the hypotheses of C07_unauthorisable_* are met by the directed scenarios' calls, the monitor accepts the model's
+   runs of them and REJECTS the behaviour of a self-owned contract whose gate lets anybody in (offer with an empty
+   authorisation set succeeds; the outsider then accepts), and an accepted offer to the contract itself *)
+Definition hd_self : header := {| h_kind := Own; h_min := 1; h_max := 5000; h_start := 100; h_holder := Some 4%N |}.
+Example C07_special_parties :
+  silentb 4%N ex_self_calls = true /\ silentb 4%N ex_to_self_calls = true /\
+  check (observe_model hd_self ex_self_calls) = (0%N, 0%N, 0%N) /\
+  check (observe_model hd0 ex_to_self_calls) = (0%N, 0%N, 0%N) /\
+  check (observe_model {| h_kind := AC; h_min := 1; h_max := 5000; h_start := 100; h_holder := Some 5%N |}
+           [Guarded []; Guarded [5%N]; Offer 1%N 200 [1%N]; Offer 1%N 200 [5%N]; Accept [1%N]; Offer 5%N 300 [1%N];
+            Accept [1%N]; Accept [5%N]; Renounce [5%N]]) = (0%N, 0%N, 0%N) /\
+  snd (fst (check (hd_self, [(Offer 1%N 200 [], Ok 0, (Some 4%N, Some (1%N, 200)));
+                             (Accept [1%N], Ok 0, (Some 1%N, None))]))) = 1%N /\
+  snd (fst (check (hd_self, [(Guarded [1%N], Ok 1, (Some 4%N, None))]))) = 1%N /\
+  snd (fst (check (hd_self, [(Renounce [], Ok 0, (None, None))]))) = 1%N /\
+  snd (fst (check (hd0, [(Offer 4%N 200 [0%N], Ok 0, (Some 0%N, Some (4%N, 200)));
+                         (Accept [], Ok 0, (Some 4%N, None))]))) = 2%N.
+Proof. vm_compute. repeat split; reflexivity. Qed.
